@@ -2,7 +2,6 @@ use crate::streaming::batching::message_batch::{RetainedMessageBatch, RETAINED_B
 use flume::{unbounded, Receiver};
 use iggy::{error::IggyError, utils::duration::IggyDuration};
 use std::{
-    io::IoSlice,
     sync::{
         atomic::{AtomicU64, Ordering},
         Arc,
@@ -221,12 +220,16 @@ impl PersisterTask {
     ) -> Result<u64, IggyError> {
         let header = batch_to_write.header_as_bytes();
         let batch_bytes = batch_to_write.bytes;
-        let slices = [IoSlice::new(&header), IoSlice::new(&batch_bytes)];
         let bytes_written = RETAINED_BATCH_HEADER_LEN + batch_bytes.len() as u64;
 
         let mut attempts = 0;
         loop {
-            match file.write_vectored(&slices).await {
+            // write_vectored() may accept only a part of the buffers, write_all() does not.
+            let written = match file.write_all(&header).await {
+                Ok(_) => file.write_all(&batch_bytes).await,
+                Err(e) => Err(e),
+            };
+            match written {
                 Ok(_) => {
                     if fsync {
                         match file.sync_all().await {
